@@ -23,13 +23,14 @@ THOROUGH_SCALE = int(os.environ.get("VERIF_THOROUGH_SCALE", "4"))  # multiplies 
 sys.path.insert(0, ROOT)
 from checks.registry import CHECKS  # noqa: E402
 
-COMMON = ["-std=c++17", "-g1", "-DGMLC_TDC_CONCURRENCY_VERIF", "-include", os.path.join(ROOT, "framework/vshim.hpp"),
+COMMON = ["-std=c++17", "-g1", "-pipe", "-DGMLC_TDC_CONCURRENCY_VERIF", "-include", os.path.join(ROOT, "framework/vshim.hpp"),
           "-I" + REPO, "-I" + os.path.join(ROOT, "framework"), "-I" + os.path.join(ROOT, "checks"), "-pthread",
           "-Wno-deprecated-declarations"]
 VARIANTS = {
-    "plain": ["g++", "-O1"],
-    "asan": ["g++", "-O0", "-fsanitize=address,undefined", "-fno-sanitize-recover=all", "-fno-omit-frame-pointer"],
-    "tsan": ["g++", "-O1", "-fsanitize=thread", "-fno-omit-frame-pointer"],
+    # uninitialised automatic objects: 0xFE bytes in the plain / tsan builds, zeroes in the asan build (whose heap is 0xbe-filled)
+    "plain": ["g++", "-O1", "-ftrivial-auto-var-init=pattern"],
+    "asan": ["g++", "-O0", "-ftrivial-auto-var-init=zero", "-fsanitize=address,undefined", "-fno-sanitize-recover=all", "-fno-omit-frame-pointer"],
+    "tsan": ["g++", "-O1", "-ftrivial-auto-var-init=pattern", "-fsanitize=thread", "-fno-omit-frame-pointer"],
 }
 
 
@@ -56,11 +57,9 @@ def binary_for(src, variant):
     h = tree_hash()
     with open(os.path.join(ROOT, "checks", src), "rb") as fh:
         h.update(fh.read())
-    for inc in ("all_headers.hpp", "common.hpp"):
-        p = os.path.join(ROOT, "checks", inc)
-        if os.path.exists(p):
-            with open(p, "rb") as fh:
-                h.update(fh.read())
+    for p in sorted(glob.glob(os.path.join(ROOT, "checks", "*.hpp"))):  # every shared harness header
+        with open(p, "rb") as fh:
+            h.update(fh.read())
     h.update(" ".join(VARIANTS[variant] + COMMON).encode())
     stem = os.path.splitext(src)[0]
     return os.path.join(BUILD, "%s_%s_%s" % (stem, variant, h.hexdigest()[:16])), stem
@@ -79,6 +78,8 @@ def build_one(src, variant):
     tmp = out + ".tmp%d" % os.getpid()
     cmd = VARIANTS[variant] + COMMON + [os.path.join(ROOT, "checks", src), "-o", tmp]
     r = sh(cmd)
+    if r.returncode != 0 and "No such file or directory" in r.stderr and "/tmp/" in r.stderr:
+        r = sh(cmd)  # a compiler temporary vanished (someone cleaned /tmp): not the tree's fault, try once more
     if r.returncode != 0:
         return None, "build failed (%s %s):\n%s" % (src, variant, r.stderr[-4000:])
     os.replace(tmp, out)
